@@ -759,6 +759,26 @@ func runGlobal(c *core.Ctx) []core.Obligation {
 						if ld, ok := x.Map.(*ssa.UnOp); ok && ld.X == ssa.Value(g) {
 							writes = true
 						}
+					case ssa.CallInstruction:
+						// the variable's own storage handed to a callee: &g, &g.f, &g[i] or g[:] of a package-level array
+						// (the callee may write it - e.g. a shared scratch buffer passed to binary.PutUvarint)
+						for _, a := range x.Common().Args {
+							base := a
+							if sl, ok := base.(*ssa.Slice); ok {
+								base = sl.X
+							}
+							for i := 0; i < 4; i++ {
+								switch y := base.(type) {
+								case *ssa.FieldAddr:
+									base = y.X
+								case *ssa.IndexAddr:
+									base = y.X
+								}
+							}
+							if base == ssa.Value(g) {
+								writes = true
+							}
+						}
 					}
 					if writes && !initOnly[fn] && !(fn.Parent() != nil && initOnly[fn.Parent()]) {
 						bad = append(bad, fmt.Sprintf("%s at %s", core.FuncName(fn), c.Pos(in.Pos())))
